@@ -338,7 +338,7 @@ class SSE1(Desc):
             c["param_dictionary_size"] = draw(st.sampled_from([2 ** 16, 64, 256]))
             return c
         c["param_k"] = draw(st.sampled_from([16, 24, 32]))
-        c["param_l"] = draw(st.sampled_from([8, 16, 32]))
+        c["param_l"] = draw(st.sampled_from([8, 16, 32, 32, 48, 64]))
         c["param_s"] = draw(st.sampled_from([4, 8, 16, 32, 64, 128, 256, 512, 1024]))
         c["param_dictionary_size"] = draw(st.sampled_from([0, 3, 64, 300]))  # 0 / 3 -> |W| / |W|+3 in finalize
         c["param_identifier_size"] = _st_idsz(draw, [1, 4, 8, 16, 20])
@@ -389,7 +389,7 @@ class SSE2(Desc):
     def st_config(self, draw):
         c = default_config(self.name)
         c["param_k"] = draw(st.sampled_from([16, 24, 32]))
-        c["param_l"] = draw(st.sampled_from([8, 16, 32]))
+        c["param_l"] = draw(st.sampled_from([8, 16, 32, 32, 48, 64]))
         c["param_max_file_size"] = draw(st.sampled_from([16, 300, 2 ** 20]))
         c["param_identifier_size"] = _st_idsz(draw, [1, 4, 8, 16])
         c["param_n"] = -draw(st.sampled_from([0, 0, 1, 5]))  # finalize: distinct ids + slack
